@@ -615,6 +615,63 @@ func ruleR056(c *Ctx) {
 		c.Undecided("funcGen.NewEmptyStack/NewStack", token.NoPos, "not found")
 		return
 	}
+	// A site inside a private helper belongs to the one function that uses the helper (three levels):
+	// extracting a site into a helper, or inlining a helper, does not change what the site is.
+	type declRef struct {
+		pkg *packages.Package
+		fd  *ast.FuncDecl
+	}
+	callers := map[*types.Func]map[*ast.FuncDecl]declRef{}
+	for _, pkg := range evalPkgs(c) {
+		info := pkg.TypesInfo
+		for _, f := range pkg.Syntax {
+			ast.Inspect(f, func(x ast.Node) bool {
+				call, ok := x.(*ast.CallExpr)
+				if !ok {
+					return true
+				}
+				cal := Callee(info, call)
+				fd := c.EnclosingDecl(call)
+				if cal == nil || fd == nil || cal.Pkg() == nil || !strings.HasPrefix(cal.Pkg().Path(), modPath) {
+					return true
+				}
+				if callers[cal.Origin()] == nil {
+					callers[cal.Origin()] = map[*ast.FuncDecl]declRef{}
+				}
+				callers[cal.Origin()][fd] = declRef{pkg, fd}
+				return true
+			})
+		}
+	}
+	owner := func(pkg *packages.Package, fd *ast.FuncDecl) declRef {
+		cur := declRef{pkg, fd}
+		for depth := 0; depth < 3; depth++ {
+			if ast.IsExported(cur.fd.Name.Name) {
+				break
+			}
+			if _, allowed := freshStackAllowed[declName(cur.pkg, cur.fd)]; allowed {
+				break
+			}
+			obj, _ := cur.pkg.TypesInfo.Defs[cur.fd.Name].(*types.Func)
+			if obj == nil {
+				break
+			}
+			cs := callers[obj.Origin()]
+			delete(cs, cur.fd) // recursion
+			if len(cs) != 1 {
+				break
+			}
+			for _, r := range cs {
+				cur = r
+			}
+		}
+		return cur
+	}
+	type site struct {
+		call *ast.CallExpr
+		ctor *types.Func
+	}
+	sites := map[string][]site{} // owner name -> sites
 	n := 0
 	for _, pkg := range evalPkgs(c) {
 		info := pkg.TypesInfo
@@ -629,22 +686,34 @@ func ruleR056(c *Ctx) {
 					return true
 				}
 				n++
-				fname := declName(pkg, fd)
 				ctor := newEmpty
 				if isCallTo(info, call, newStack) {
 					ctor = newStack
 				}
-				key := fmt.Sprintf("%s#%s[%d]", fname, ctor.Name(), ordinalIn(fd, call, func(y ast.Node) bool {
-					cc, ok := y.(*ast.CallExpr)
-					return ok && isCallTo(info, cc, ctor)
-				}))
-				if why, ok := freshStackAllowed[fname]; ok {
-					c.OK(key, call.Pos(), "fresh stack at a host boundary: %s", why)
-					return true
-				}
-				c.Violation(key, call.Pos(), "closures of the running program are evaluated on a fresh value stack: the 10000 slot recursion guard starts again at zero, so recursion through this site is bounded by nothing but the Go stack (fatal 'stack overflow' of the process instead of an error)")
+				o := owner(pkg, fd)
+				oname := declName(o.pkg, o.fd)
+				sites[oname] = append(sites[oname], site{call, ctor})
 				return true
 			})
+		}
+	}
+	for oname, ss := range sites {
+		sort.Slice(ss, func(i, j int) bool {
+			pi, pj := c.Fset.Position(ss[i].call.Pos()), c.Fset.Position(ss[j].call.Pos())
+			if pi.Filename != pj.Filename {
+				return pi.Filename < pj.Filename
+			}
+			return pi.Offset < pj.Offset
+		})
+		ord := map[string]int{}
+		for _, st := range ss {
+			ord[st.ctor.Name()]++
+			key := fmt.Sprintf("%s#%s[%d]", oname, st.ctor.Name(), ord[st.ctor.Name()])
+			if why, ok := freshStackAllowed[oname]; ok {
+				c.OK(key, st.call.Pos(), "fresh stack at a host boundary: %s", why)
+				continue
+			}
+			c.Violation(key, st.call.Pos(), "closures of the running program are evaluated on a fresh value stack: the 10000 slot recursion guard starts again at zero, so recursion through this site is bounded by nothing but the Go stack (fatal 'stack overflow' of the process instead of an error)")
 		}
 	}
 	if n < 8 {
